@@ -64,7 +64,8 @@ KF5(e, subj) == G5(e, subj) /\ Accept
 
 (* C19-KF6: SuffixArrayDictionary::save_to_file rewrites the dictionary file in place and *)
 (* the bincode image has no checksum: a torn rewrite loads with a text never saved.       *)
-G6(e, subj) == /\ subj.fam = "dzdict" /\ IsReopen(e) /\ img.kind \in MixKinds
+G6(e, subj) == /\ subj.fam = "dzdict" /\ subj.variant \in {"sadict", "serde"}
+               /\ IsReopen(e) /\ img.kind \in MixKinds
                /\ e.outcome = "ok" /\ Rejected(e)
 KF6(e, subj) == G6(e, subj) /\ Accept
 
